@@ -78,9 +78,13 @@ static const char *errname(int e) {
  * reaches the transcript, so that the failing operation is the first one without a result */
 void __sanitizer_set_death_callback(void (*cb)(void)) __attribute__((weak));
 static void verif_flush_cb(void) { fflush(stdout); }
+#include <signal.h>
+static void verif_abort_handler(int sig) { (void) sig; fflush(stdout); _exit(99); }
 static void harness_init(void) {
     setvbuf(stdout, NULL, _IOFBF, 1 << 16);
     if (__sanitizer_set_death_callback) __sanitizer_set_death_callback(verif_flush_cb);
+    /* UBSan (a second runtime) and assert() end in abort(): flush there too */
+    signal(SIGABRT, verif_abort_handler);
 }
 
 #endif
